@@ -69,6 +69,8 @@ def run(rep):
             if method == 'DualAverage' and jit: rep.sample({'query': tag, 'paths': len(outs), 'example events': [e for e in q.post(outs[0][0])['events']]})
     new_no_panic(rep, mir, L)
     window_boundaries(rep, mir, L)
+    from ..driver import parts
+    parts(rep, [lambda: window_boundaries_flow(rep, mir, L)])
     progress_order(rep, mir, L)
     native_traces(rep)
 
@@ -143,6 +145,30 @@ def window_boundaries(rep, mir, L):
         rep.violated('C06.f GlobalStrategy::new places the windows as configured', 'new.windows', '%s, e.g. %s' % (bad[0], md), model=md)
     else: rep.holds('C06.f GlobalStrategy::new: final step-size window = last trunc(step_size_window * num_tune) draws of warm-up (saturating), early window = first trunc(early_window * num_tune) draws, for all num_tune < 2^32 and all fractions (overlap included)', time.time() - t0)
     rep.cover('C06.f a non-panicking path of new exists', nok > 0)
+
+def window_boundaries_flow(rep, mir, L):
+    """ExternalTransformAdaptation::new (flow presets): the final step-size window starts at floor(num_tune x (1 - step_size_window)) - the last
+    step_size_window fraction of warm-up - and never after num_tune"""
+    A = RealAlg(); vm = VM(mir, A); fn = mir.method('ExternalTransformAdaptation', 'AdaptStrategy', 'new')
+    vm.add_model(r'^stepsize::adapt::Strategy::new$', lambda vm, m, c, a: ret(m, Struct((), 'StepOracle')))
+    nt = z3.Int('num_tune'); sw = A.fresh('step_size_window'); m = Machine(); m.pc = [nt >= 0, nt < 2 ** 32, sw.v >= 0, sw.v <= 1]
+    opts = L.make('FlowSettings', {f: (sw if f == 'step_size_window' else Opaque(f)) for f in L.fields('FlowSettings')})
+    outs = vm.run(fn, [Ref(m.alloc(Opaque('math'))), opts, nt, z3.Int('chain')], m); rep.paths += len(outs); rep.absorb_vm(vm); bad = None; nok = 0; t0 = time.time()
+    for (mm, k, v) in outs:
+        s = z3.Solver(); s.set('timeout', 60000); s.add(*mm.pc); s.add(*A.lemmas)
+        if k == 'panic':
+            if s.check() != z3.unsat: bad = ('ExternalTransformAdaptation::new panics: %s' % (v,), s.model())
+            continue
+        nok += 1; g = lambda f: L.get('ExternalTransformAdaptation', v, f)
+        s.add(z3.Or(g('final_window_size') != z3.ToInt(z3.ToReal(nt) * (1 - sw.v)), g('final_window_size') > nt, g('num_tune') != nt, _b(g('tuning')) != True))
+        r = s.check()
+        if r == z3.sat: bad = ('final window of the flow adaptation is not the last step_size_window fraction of warm-up', s.model())
+        elif r != z3.unsat: rep.unknown('C06.f flow window boundary', 'solver: ' + s.reason_unknown()); return
+    if bad:
+        md = {d.name(): str(bad[1][d]) for d in bad[1].decls() if d.arity() == 0}
+        rep.violated('C06.f ExternalTransformAdaptation::new places the final window as configured', 'new.windows.flow', '%s, e.g. %s' % (bad[0], md), model=md)
+    else: rep.holds('C06.f ExternalTransformAdaptation::new: final window starts at floor(num_tune x (1 - step_size_window)) <= num_tune, tuning = true, for all num_tune < 2^32 and fractions in [0, 1]', time.time() - t0)
+    rep.cover('C06.f a non-panicking path of the flow strategy\'s new exists', nok > 0)
 
 def progress_order(rep, mir, L):
     """Progress.tuning of draw d must be is_tuning() *after* adapt(d) (NutsChain::draw and MclmcChain::draw)"""
